@@ -28,7 +28,10 @@
 // A step with out = err returns an error of the kind named by its flavour `fl`: plain (the harness'
 // own), exec (the driver's statement error), wrap, notfound (gorm.ErrRecordNotFound), nfwrap (wrapped
 // with %w), dup1062 / dup1105 (*mysql.MySQLError duplicate key, plain and vitess), mysql1213, grpcnf /
-// grpcdup (what ToGRPC...Err produce), txdone, canceled, invalidtx.  The specification does not look
+// grpcdup (what ToGRPC...Err produce), txdone, canceled, invalidtx, and "s:<name>" / "w:<name>": every
+// error value database/sql, database/sql/driver, gorm, go-sql-driver/mysql, context, io, net know by
+// name (table `sentinels`), plain and wrapped with %w.  The same table is what a refused begin /
+// commit / rollback may be answered with.  The specification does not look
 // at the kind: any non-nil error stops the list, rolls back and comes back as it is.  `ret` reports
 // step i when the returned error is (or wraps) the very value closure i returned.
 //
@@ -49,6 +52,7 @@ import (
 	"fmt"
 	"io"
 	"math/rand"
+	"net"
 	"os"
 	"path/filepath"
 	"runtime"
@@ -56,6 +60,7 @@ import (
 	"strings"
 	"sync"
 	"sync/atomic"
+	"syscall"
 	"time"
 	"unsafe"
 
@@ -112,6 +117,28 @@ type evlog struct {
 	mu       sync.Mutex
 	evs      []tr.E
 	returned []retErr // the error values the step closures really returned, in order
+	rle      bool     // very long lists: consecutive uneventful steps are recorded as one `steps` event
+	from, to int      // the pending run (to = 0: none)
+}
+
+// flush writes the pending run (l.mu held).
+func (l *evlog) flush() {
+	if l.to != 0 {
+		l.evs = append(l.evs, tr.E{"ev": "steps", "from": l.from, "to": l.to})
+		l.to = 0
+	}
+}
+
+// quiet records that step i was entered and returned nil without anything else happening.
+func (l *evlog) quiet(i int) {
+	l.mu.Lock()
+	if l.to != 0 && i == l.to+1 {
+		l.to = i
+	} else {
+		l.flush()
+		l.from, l.to = i, i
+	}
+	l.mu.Unlock()
 }
 
 type retErr struct {
@@ -129,6 +156,7 @@ func (l *evlog) fails(i int, e error) error {
 
 func (l *evlog) add(e tr.E) {
 	l.mu.Lock()
+	l.flush()
 	l.evs = append(l.evs, e)
 	l.mu.Unlock()
 }
@@ -161,7 +189,7 @@ var (
 // kinds of error the database answers a refused begin / commit / rollback with.  For Transact they
 // are all alike.  (driver.ErrBadConn is left to commit/rollback: on begin database/sql would retry
 // on a fresh connection, which is a different plan.)
-var failKinds = []string{"plain", "mysql1213", "mysql1205", "txdone", "conndone", "eof", "invalidconn", "badconn"}
+var failKinds = append([]string{"plain", "mysql1213", "mysql1205"}, sentinelKinds(false)...)
 
 func failErr(kind string, plain error, begin bool) error {
 	switch kind {
@@ -169,20 +197,85 @@ func failErr(kind string, plain error, begin bool) error {
 		return &mysqldrv.MySQLError{Number: 1213, Message: "Deadlock found when trying to get lock"}
 	case "mysql1205":
 		return &mysqldrv.MySQLError{Number: 1205, Message: "Lock wait timeout exceeded"}
-	case "txdone":
-		return sql.ErrTxDone
-	case "conndone":
-		return sql.ErrConnDone
-	case "eof":
-		return io.ErrUnexpectedEOF
-	case "invalidconn":
-		return mysqldrv.ErrInvalidConn
-	case "badconn":
-		if !begin {
-			return driver.ErrBadConn
-		}
+	}
+	if e := sentinelOf(kind); e != nil && !(begin && e == driver.ErrBadConn) {
+		return e
 	}
 	return plain
+}
+
+// Every error value either side of Transact knows by name: database/sql, database/sql/driver, gorm,
+// go-sql-driver/mysql, context, io, net / os / syscall.  A step may return any of them, plain
+// ("s:<name>") or wrapped with %w ("w:<name>"); the database may answer a refused begin / commit /
+// rollback with any of them.  For Transact they are all the same thing: not nil.
+type netTimeout struct{}
+
+func (netTimeout) Error() string   { return "i/o timeout (fake)" }
+func (netTimeout) Timeout() bool   { return true }
+func (netTimeout) Temporary() bool { return true }
+
+var sentinels = []struct {
+	name string
+	e    error
+}{
+	{"sql.ErrNoRows", sql.ErrNoRows}, {"sql.ErrTxDone", sql.ErrTxDone}, {"sql.ErrConnDone", sql.ErrConnDone},
+	{"driver.ErrBadConn", driver.ErrBadConn}, {"driver.ErrSkip", driver.ErrSkip},
+	{"driver.ErrRemoveArgument", driver.ErrRemoveArgument},
+	{"gorm.ErrRecordNotFound", gorm.ErrRecordNotFound}, {"gorm.ErrInvalidTransaction", gorm.ErrInvalidTransaction},
+	{"gorm.ErrNotImplemented", gorm.ErrNotImplemented}, {"gorm.ErrMissingWhereClause", gorm.ErrMissingWhereClause},
+	{"gorm.ErrUnsupportedRelation", gorm.ErrUnsupportedRelation}, {"gorm.ErrPrimaryKeyRequired", gorm.ErrPrimaryKeyRequired},
+	{"gorm.ErrModelValueRequired", gorm.ErrModelValueRequired},
+	{"gorm.ErrModelAccessibleFieldsRequired", gorm.ErrModelAccessibleFieldsRequired},
+	{"gorm.ErrSubQueryRequired", gorm.ErrSubQueryRequired}, {"gorm.ErrInvalidData", gorm.ErrInvalidData},
+	{"gorm.ErrUnsupportedDriver", gorm.ErrUnsupportedDriver}, {"gorm.ErrRegistered", gorm.ErrRegistered},
+	{"gorm.ErrInvalidField", gorm.ErrInvalidField}, {"gorm.ErrEmptySlice", gorm.ErrEmptySlice},
+	{"gorm.ErrDryRunModeUnsupported", gorm.ErrDryRunModeUnsupported}, {"gorm.ErrInvalidDB", gorm.ErrInvalidDB},
+	{"gorm.ErrInvalidValue", gorm.ErrInvalidValue}, {"gorm.ErrInvalidValueOfLength", gorm.ErrInvalidValueOfLength},
+	{"gorm.ErrPreloadNotAllowed", gorm.ErrPreloadNotAllowed}, {"gorm.ErrDuplicatedKey", gorm.ErrDuplicatedKey},
+	{"mysql.ErrInvalidConn", mysqldrv.ErrInvalidConn}, {"mysql.ErrMalformPkt", mysqldrv.ErrMalformPkt},
+	{"mysql.ErrNoTLS", mysqldrv.ErrNoTLS}, {"mysql.ErrCleartextPassword", mysqldrv.ErrCleartextPassword},
+	{"mysql.ErrNativePassword", mysqldrv.ErrNativePassword}, {"mysql.ErrOldPassword", mysqldrv.ErrOldPassword},
+	{"mysql.ErrUnknownPlugin", mysqldrv.ErrUnknownPlugin}, {"mysql.ErrOldProtocol", mysqldrv.ErrOldProtocol},
+	{"mysql.ErrPktSync", mysqldrv.ErrPktSync}, {"mysql.ErrPktSyncMul", mysqldrv.ErrPktSyncMul},
+	{"mysql.ErrPktTooLarge", mysqldrv.ErrPktTooLarge}, {"mysql.ErrBusyBuffer", mysqldrv.ErrBusyBuffer},
+	{"mysql.1040", &mysqldrv.MySQLError{Number: 1040, Message: "Too many connections"}},
+	{"mysql.1146", &mysqldrv.MySQLError{Number: 1146, Message: "Table 't' doesn't exist"}},
+	{"mysql.1205", &mysqldrv.MySQLError{Number: 1205, Message: "Lock wait timeout exceeded"}},
+	{"mysql.1290", &mysqldrv.MySQLError{Number: 1290, Message: "The MySQL server is running with the --read-only option"}},
+	{"mysql.1105", &mysqldrv.MySQLError{Number: 1105, Message: "unknown error"}},
+	{"context.Canceled", context.Canceled}, {"context.DeadlineExceeded", context.DeadlineExceeded},
+	{"io.EOF", io.EOF}, {"io.ErrUnexpectedEOF", io.ErrUnexpectedEOF}, {"io.ErrClosedPipe", io.ErrClosedPipe},
+	{"io.ErrShortWrite", io.ErrShortWrite},
+	{"net.ErrClosed", net.ErrClosed}, {"os.ErrDeadlineExceeded", os.ErrDeadlineExceeded},
+	{"net.timeout", netTimeout{}},
+	{"net.OpError", &net.OpError{Op: "read", Net: "tcp", Err: netTimeout{}}},
+	{"net.OpError.reset", &net.OpError{Op: "write", Net: "tcp", Err: syscall.ECONNRESET}},
+	{"syscall.ECONNRESET", syscall.ECONNRESET}, {"syscall.EPIPE", syscall.EPIPE},
+	{"syscall.ECONNREFUSED", syscall.ECONNREFUSED},
+	{"net.DNSError", &net.DNSError{Err: "no such host", Name: "db", IsTemporary: true}},
+}
+
+func sentinelKinds(wrapped bool) []string {
+	r := make([]string, 0, 2*len(sentinels))
+	for _, x := range sentinels {
+		r = append(r, "s:"+x.name)
+		if wrapped {
+			r = append(r, "w:"+x.name)
+		}
+	}
+	return r
+}
+
+func sentinelOf(kind string) error {
+	if len(kind) < 2 || kind[1] != ':' {
+		return nil
+	}
+	for _, x := range sentinels {
+		if x.name == kind[2:] {
+			return x.e
+		}
+	}
+	return nil
 }
 
 // script is what the fake database does during one Transact call.
@@ -300,6 +393,26 @@ func (c *conn) ExecContext(ctx context.Context, q string, _ []driver.NamedValue)
 	return c.exec(ctx, q)
 }
 
+// the rest of the driver's interface family: queries count as statements like executions do, the
+// pool's housekeeping calls are answered and leave no trace
+func (c *conn) QueryContext(ctx context.Context, q string, _ []driver.NamedValue) (driver.Rows, error) {
+	if _, err := c.exec(ctx, q); err != nil {
+		return nil, err
+	}
+	return &frows{}, nil
+}
+func (c *conn) PrepareContext(_ context.Context, q string) (driver.Stmt, error) { return c.Prepare(q) }
+func (c *conn) Ping(context.Context) error                                      { return nil }
+func (c *conn) ResetSession(context.Context) error                              { return nil }
+func (c *conn) IsValid() bool                                                   { return true }
+func (c *conn) CheckNamedValue(*driver.NamedValue) error                        { return nil }
+
+type frows struct{}
+
+func (*frows) Columns() []string         { return []string{"v"} }
+func (*frows) Close() error              { return nil }
+func (*frows) Next([]driver.Value) error { return io.EOF }
+
 // prepared statements (gorm's PrepareStmt mode): only the execution counts
 type fstmt struct {
 	c *conn
@@ -316,7 +429,10 @@ func (st *fstmt) ExecContext(ctx context.Context, _ []driver.NamedValue) (driver
 	return st.c.exec(ctx, st.q)
 }
 func (st *fstmt) Query([]driver.Value) (driver.Rows, error) {
-	return nil, errors.New("fake: no queries")
+	return st.c.QueryContext(context.Background(), st.q, nil)
+}
+func (st *fstmt) QueryContext(ctx context.Context, _ []driver.NamedValue) (driver.Rows, error) {
+	return st.c.QueryContext(ctx, st.q, nil)
 }
 
 type ftx struct {
@@ -363,8 +479,16 @@ func token(i int, s step) string {
 			return "nil map"
 		case "perr":
 			return fmt.Sprintf("boomerr-%d!", i)
-		case "pval":
+		case "pval", "pslice", "pmap", "pptr":
 			return fmt.Sprintf("boomval-%d!", i)
+		case "pint":
+			return fmt.Sprint(7000 + i)
+		case "pnilptr":
+			return "nil"
+		case "pfunc":
+			return "0x"
+		case "perrnil":
+			return "typed-nil-error"
 		}
 		return fmt.Sprintf("boom-%d!", i)
 	}
@@ -390,6 +514,26 @@ func (l *evlog) open() bool {
 // errOf is the error value a failing step of the given kind returns.  The kinds are the classes of
 // errors the package (err.go: IsNotFoundErr, IsDupError, ToGRPC...) and its users distinguish; for
 // Transact they are all the same thing: a step that did not return nil.
+type nilErr struct{ msg string }
+
+func (e *nilErr) Error() string {
+	if e == nil {
+		return "typed-nil-error"
+	}
+	return e.msg
+}
+
+type sliceErr struct {
+	i     int
+	parts []string
+}
+
+func (e sliceErr) Error() string { return strings.Join(e.parts, " ") }
+
+type ptrErr struct{ msg string }
+
+func (e *ptrErr) Error() string { return e.msg }
+
 func errOf(i int, kind string) error {
 	tok := stepErr{i}.Error()
 	switch kind {
@@ -415,20 +559,52 @@ func errOf(i int, kind string) error {
 		return context.Canceled
 	case "invalidtx":
 		return gorm.ErrInvalidTransaction
+	case "typednil": // a non-nil error holding a nil pointer
+		var e *nilErr
+		return e
+	case "uncmp": // an error whose dynamic type cannot be compared with ==
+		return sliceErr{i, []string{tok}}
+	case "ptrerr":
+		return &ptrErr{tok}
+	}
+	if e := sentinelOf(kind); e != nil {
+		if kind[0] == 'w' {
+			return fmt.Errorf("%s: %w", tok, e)
+		}
+		return e
 	}
 	return stepErr{i}
 }
 
-func mkStep(l *evlog, i int, s step, cancel func()) gormx.GormProcFn {
+// mkStep builds the closure of the steps at positions pos (one position, or several consecutive ones
+// with equal step records: the very same function value then stands at all of them and its n-th
+// invocation is step pos[n]).  hook runs inside the step after its statements.
+func mkStep(l *evlog, pos []int, s step, cancel, hook func()) gormx.GormProcFn {
 	if s.Out == "nilfn" {
 		return nil
 	}
+	var calls int32
+	uneventful := s.Out == "ok" && s.Do == 0 && s.Fin == "none" && s.Fl == "plain" && cancel == nil && hook == nil
 	return func(txn *gorm.DB) error {
+		n := int(atomic.AddInt32(&calls, 1)) - 1
+		i := pos[len(pos)-1] + n - (len(pos) - 1) // more invocations than positions: indices nobody planned
+		if n < len(pos) {
+			i = pos[n]
+		}
+		if l.rle && uneventful {
+			l.quiet(i)
+			return nil
+		}
 		l.add(tr.E{"ev": "step", "i": i})
 		var xerr error
 		wasOver := l.over()
 		for e := 0; e < s.Do; e++ {
-			xerr = txn.Exec(fmt.Sprintf("UPDATE t SET v = v + 1 /*S%d*/", i)).Error
+			if s.Fl2 == "sess" && e%2 == 0 { // a query is a statement too
+				var vs []int
+				xerr = txn.Raw(fmt.Sprintf("SELECT v FROM t WHERE id = ? /*S%d*/", i), e).Scan(&vs).Error
+			} else {
+				xerr = txn.Exec(fmt.Sprintf("UPDATE t SET v = v + 1 /*S%d*/", i)).Error
+			}
 		}
 		// the step ends the transaction itself, on the handle it got or on a session of it
 		var h = txn
@@ -451,6 +627,9 @@ func mkStep(l *evlog, i int, s step, cancel func()) gormx.GormProcFn {
 					time.Sleep(50 * time.Microsecond)
 				}
 			}
+		}
+		if hook != nil {
+			hook()
 		}
 		// the step uses Transact again on the handle it was given: gorm refuses to begin inside a
 		// transaction (no savepoints here), the inner steps do not run, nothing reaches the database
@@ -494,6 +673,21 @@ func mkStep(l *evlog, i int, s step, cancel func()) gormx.GormProcFn {
 				panic(errors.New(token(i, s)))
 			case "pval":
 				panic(boom{i, token(i, s)})
+			case "pptr":
+				panic(&boom{i, token(i, s)})
+			case "pslice":
+				panic([]string{token(i, s)})
+			case "pmap":
+				panic(map[string]int{token(i, s): i})
+			case "pint":
+				panic(7000 + i)
+			case "pnilptr": // a typed nil pointer: recover() is not nil
+				panic((*boom)(nil))
+			case "pfunc":
+				panic(func() {})
+			case "perrnil":
+				var e *nilErr
+				panic(error(e))
 			}
 			panic(token(i, s))
 		case "pnil":
@@ -559,6 +753,20 @@ func combine(rng *rand.Rand, fns []gormx.GormProcFn, base, depth int) (gormx.Gor
 
 // ---------------------------------------------------------------------------- one call
 
+// same: e is the very value r (values of uncomparable dynamic type: same type and same step).
+func same(e, r error) (eq bool) {
+	if a, ok := e.(sliceErr); ok {
+		b, ok2 := r.(sliceErr)
+		return ok2 && a.i == b.i
+	}
+	defer func() {
+		if recover() != nil {
+			eq = false
+		}
+	}()
+	return e == r
+}
+
 func classify(err error, p plan, l *evlog) tr.E {
 	if err == nil {
 		return tr.E{"kind": "nil", "i": 0}
@@ -570,7 +778,7 @@ func classify(err error, p plan, l *evlog) tr.E {
 	l.mu.Unlock()
 	for e := err; e != nil; e = errors.Unwrap(e) {
 		for _, r := range returned {
-			if e == r.e {
+			if same(e, r.e) {
 				return tr.E{"kind": "step", "i": r.i}
 			}
 		}
@@ -601,7 +809,9 @@ var (
 	okStates = []string{"plain", "plain", "plain", "ctx", "session", "newdb", "debug", "where", "prepare",
 		"sessprep", "skipdef", "dryrun", "maxconn1"}
 	noBeginStates = []string{"intx", "closed"}
-	sharable      = map[string]bool{"plain": true, "ctx": true, "session": true, "newdb": true, "debug": true, "where": true}
+	zeroStates    = []string{"nilptr", "zerodb"}
+	sharable      = map[string]bool{"plain": true, "ctx": true, "session": true, "newdb": true, "debug": true, "where": true,
+		"sessprep": true, "dryrun": true}
 )
 
 // database = pool + gorm handle on the fake driver
@@ -687,6 +897,8 @@ func normalize(rng *rand.Rand, p *plan, dberr bool) {
 			p.Dbst = okStates[rng.Intn(len(okStates))]
 		case "nobegin":
 			p.Dbst = noBeginStates[rng.Intn(len(noBeginStates))]
+		case "zero":
+			p.Dbst = zeroStates[rng.Intn(len(zeroStates))]
 		case "err":
 			p.Dbst = "witherr"
 		}
@@ -719,14 +931,16 @@ func normalize(rng *rand.Rand, p *plan, dberr bool) {
 }
 
 // prepare builds script, closures and arguments of a call (p must be normalized).
-func prepare(rng *rand.Rand, p plan) *call {
+func prepare(rng *rand.Rand, p plan, hooks map[int]func()) *call {
 	l := &evlog{}
 	sc := &script{log: l, beginOK: p.Begin, connectOK: true, commitOK: p.Commit, rollbackOK: p.Rollback,
 		ffl: p.Ffl, execFail: map[int]bool{}, execLeft: map[int]int{}}
 	c := &call{p: p, l: l, sc: sc, bfl: "driver"}
+	l.rle = len(p.Steps) > 200
 	c.ctx, c.cancel = context.WithCancel(context.WithValue(context.Background(), ctxKey{}, sc))
 	fns := make([]gormx.GormProcFn, 0, len(p.Steps))
-	for k, s := range p.Steps {
+	for k := 0; k < len(p.Steps); k++ {
+		s := p.Steps[k]
 		sc.execLeft[k+1] = s.Ex
 		if s.Fl == "exec" || s.Fl == "swallow" {
 			sc.execFail[k+1] = true
@@ -735,7 +949,19 @@ func prepare(rng *rand.Rand, p plan) *call {
 		if p.Cancel == k+1 {
 			cf = c.cancel
 		}
-		fns = append(fns, mkStep(l, k+1, s, cf))
+		pos := []int{k + 1}
+		// the same function value twice (or more) in a row, when the plan has equal steps there
+		for cf == nil && hooks[k+1] == nil && !l.rle && k+1 < len(p.Steps) && p.Steps[k+1] == s &&
+			p.Cancel != k+2 && hooks[k+2] == nil && rng.Intn(2) == 0 {
+			k++
+			sc.execLeft[k+1] = s.Ex
+			sc.execFail[k+1] = sc.execFail[k]
+			pos = append(pos, k+1)
+		}
+		f := mkStep(l, pos, s, cf, hooks[pos[0]])
+		for range pos {
+			fns = append(fns, f)
+		}
 	}
 	c.args, c.shape = group(rng, p.N, fns)
 	if p.N == 0 {
@@ -797,6 +1023,7 @@ func (c *call) emit(w *tr.W, src string, inuse int) {
 	w.Emit(tr.E{"ev": "reset", "cfg": c.p.rec(), "src": src, "shape": c.shape, "bfl": c.bfl, "dbst": c.p.Dbst,
 		"ffl": c.p.Ffl, "nfl": c.p.Nfl})
 	c.l.mu.Lock()
+	c.l.flush()
 	for _, e := range c.l.evs {
 		w.Emit(e)
 	}
@@ -816,7 +1043,7 @@ var dbErrOn bool
 
 func runOne(w *tr.W, rng *rand.Rand, src string, p plan) {
 	normalize(rng, &p, dbErrOn)
-	c := prepare(rng, p)
+	c := prepare(rng, p, nil)
 	defer c.cancel()
 	if !p.Begin && rng.Intn(3) == 0 && p.Db == "ok" {
 		c.sc.connectOK = false
@@ -863,6 +1090,10 @@ func runOne(w *tr.W, rng *rand.Rand, src string, p plan) {
 		h = outer
 	case "closed":
 		d.sqlDB.Close()
+	case "nilptr":
+		h = nil
+	case "zerodb":
+		h = &gorm.DB{}
 	case "witherr":
 		h = h.Session(&gorm.Session{})
 		_ = h.AddError(errors.New("an earlier error on the handle"))
@@ -889,17 +1120,83 @@ func runOne(w *tr.W, rng *rand.Rand, src string, p plan) {
 	}
 }
 
+// queued: a pool of one connection; call A holds it, call B is parked in the pool waiting to begin when
+// its context ends (A's first step sees to that): B's begin never reaches the database, B gets an
+// error, runs nothing; A is not disturbed.  Two traces.
+func runQueued(w *tr.W, rng *rand.Rand, maxLen int) {
+	d := openDB(&gorm.Config{})
+	d.sqlDB.SetMaxOpenConns(1)
+	pa := randPlan(rng, maxLen)
+	if len(pa.Steps) == 0 || pa.Steps[0].Out == "nilfn" {
+		pa.Steps = append([]step{st("ok", 1, "plain", "none")}, pa.Steps...)
+		if pa.Cancel > 0 {
+			pa.Cancel++
+		}
+	}
+	if pa.N == 0 {
+		pa.N = 1
+	}
+	if pa.Cancel == 0 {
+		pa.Cancel = -1
+	}
+	pa.Begin, pa.Db, pa.Dbst = true, "ok", "ctx"
+	pb := randPlan(rng, maxLen)
+	if pb.N == 0 {
+		pb.N = 1
+	}
+	pb.Db, pb.Dbst, pb.Cancel = "ok", "ctx", 0
+	normalize(rng, &pa, false)
+	normalize(rng, &pb, false)
+	b := prepare(rng, pb, nil)
+	parked := true
+	bdone := make(chan struct{})
+	a := prepare(rng, pa, map[int]func(){1: func() {
+		w0 := d.sqlDB.Stats().WaitCount
+		go func() {
+			b.run(d.db.WithContext(b.ctx))
+			close(bdone)
+		}()
+		for t0 := time.Now(); d.sqlDB.Stats().WaitCount == w0; {
+			if time.Since(t0) > 2*time.Second {
+				parked = false // B did not get as far as the pool: this round says nothing
+				break
+			}
+			time.Sleep(20 * time.Microsecond)
+		}
+		b.cancel()
+		select {
+		case <-bdone:
+		case <-time.After(2 * time.Second):
+			parked = false
+		}
+	}})
+	a.run(d.db.WithContext(a.ctx))
+	if !parked {
+		<-bdone
+	}
+	n := inUse(d.sqlDB)
+	a.emit(w, "queued", n)
+	if parked {
+		b.emit(w, "queued", n)
+	}
+	a.cancel()
+	go d.sqlDB.Close()
+}
+
 // round: several calls released together on one fresh database (first use under contention, calls
 // side by side on one pool).  Every call is bound to its own context, through which the driver finds
 // the call's script; each call is one trace.
 func runRound(w *tr.W, rng *rand.Rand, k, maxLen int) {
 	d := openDB(&gorm.Config{PrepareStmt: rng.Intn(4) == 0})
+	if rng.Intn(3) == 0 { // fewer connections than callers: begins queue up in the pool
+		d.sqlDB.SetMaxOpenConns(1 + rng.Intn(2))
+	}
 	calls := make([]*call, k)
 	for i := range calls {
 		p := randPlan(rng, maxLen)
 		p.Db, p.Dbst = "ok", "ctx"
 		normalize(rng, &p, false)
-		calls[i] = prepare(rng, p)
+		calls[i] = prepare(rng, p, nil)
 		if p.Cancel == 0 {
 			calls[i].cancel()
 		}
@@ -958,9 +1255,9 @@ func readPlan(path string) plan {
 }
 
 var (
-	errFl = []string{"plain", "exec", "wrap", "nested", "notfound", "nfwrap", "dup1062", "dup1105", "mysql1213",
-		"grpcnf", "grpcdup", "txdone", "canceled", "invalidtx"}
-	panicFl = []string{"plain", "perr", "pval", "rt"}
+	errFl = append([]string{"plain", "exec", "wrap", "nested", "notfound", "nfwrap", "dup1062", "dup1105", "mysql1213",
+		"grpcnf", "grpcdup", "txdone", "canceled", "invalidtx", "typednil", "uncmp", "ptrerr"}, sentinelKinds(true)...)
+	panicFl = []string{"plain", "perr", "pval", "rt", "pptr", "pslice", "pmap", "pint", "pnilptr", "pfunc", "perrnil"}
 )
 
 func mkPlan(n int, steps []step, begin, commit, rollback bool, cancel int) plan {
@@ -987,7 +1284,7 @@ func variants(full bool) []step {
 		v = append(v, st("err", 0, "nested", "none"), st("ok", 1, "nestedok", "none"), st("ok", 0, "nestedok", "rollback"))
 		v = append(v, st("err", 1, "nfwrap", "none"), st("err", 0, "dup1105", "none"), st("err", 0, "mysql1213", "none"),
 			st("err", 0, "grpcnf", "none"), st("err", 1, "txdone", "none"))
-		v = append(v, st("ok", 1, "swallow", "none"), st("err", 1, "wrap", "none"), st("panic", 0, "perr", "none"),
+		v = append(v, st("ok", 1, "swallow", "none"), st("err", 1, "wrap", "none"), st("panic", 0, "perr", "none"), st("panic", 0, "pnilptr", "none"),
 			st("panic", 1, "pval", "none"), st("pnil", 0, "plain", "none"), st("exit", 0, "plain", "none"),
 			st("ok", 0, "plain", "commit"), st("ok", 1, "plain", "rollback"), st("err", 0, "plain", "commit"),
 			st("panic", 0, "plain", "commit"), st("pnil", 1, "plain", "rollback"), st("exit", 0, "plain", "rollback"))
@@ -1062,6 +1359,9 @@ func enumStates(w *tr.W, rng *rand.Rand) int {
 	for _, s := range noBeginStates {
 		states = append(states, [2]string{"nobegin", s})
 	}
+	for _, s := range zeroStates {
+		states = append(states, [2]string{"zero", s})
+	}
 	if dbErrOn {
 		states = append(states, [2]string{"err", "witherr"})
 	}
@@ -1099,6 +1399,52 @@ func enumStates(w *tr.W, rng *rand.Rand) int {
 			p.Ffl, p.Dbst = k, "plain"
 			runOne(w, rng, "state", p)
 			n++
+		}
+	}
+	return n
+}
+
+// enumErrKinds: every kind of step error, plain and wrapped, as the only step, followed by a step that
+// would succeed, and after one that succeeded - with the rollback accepted and refused.
+func enumErrKinds(w *tr.W, rng *rand.Rand) int {
+	n := 0
+	ok := func() step { return st("ok", rng.Intn(2), "plain", "none") }
+	kinds := [][2]string{}
+	for _, k := range errFl {
+		if k != "exec" {
+			kinds = append(kinds, [2]string{"err", k})
+		}
+	}
+	for _, k := range panicFl { // and every kind of panic value
+		kinds = append(kinds, [2]string{"panic", k})
+	}
+	for _, ok2 := range kinds {
+		e := st(ok2[0], rng.Intn(2), ok2[1], "none")
+		for _, steps := range [][]step{{e}, {e, ok()}, {ok(), e}, {ok(), e, ok()}} {
+			runOne(w, rng, "errkind", mkPlan(1+rng.Intn(len(steps)), steps, true, true, n%3 != 0, -1))
+			n++
+		}
+	}
+	return n
+}
+
+// enumWidths: lists whose length sits on the edge of an integer width (a narrowed index or counter
+// wraps there): all steps uneventful, the last one of three kinds.
+func enumWidths(w *tr.W, rng *rand.Rand, widths []int) int {
+	n := 0
+	for _, width := range widths {
+		for _, m := range []int{width - 1, width, width + 1} {
+			for _, last := range []step{st("ok", 0, "plain", "none"), st("err", 1, "plain", "none"), st("ok", 1, "plain", "none")} {
+				steps := make([]step, 0, m)
+				for k := 0; k < m-1; k++ {
+					steps = append(steps, st("ok", 0, "plain", "none"))
+				}
+				steps = append(steps, last)
+				p := mkPlan(1, steps, true, true, true, -1)
+				p.Dbst = "plain"
+				runOne(w, rng, "width", p)
+				n++
+			}
 		}
 	}
 	return n
@@ -1180,6 +1526,8 @@ func randPlan(rng *rand.Rand, maxLen int) plan {
 		p.Db = "nobegin"
 	case x == 1 && dbErrOn:
 		p.Db = "err"
+	case x == 2:
+		p.Db = "zero"
 	}
 	return p
 }
@@ -1194,6 +1542,7 @@ func main() {
 	maxLen := flag.Int("maxlen", 12, "maximal number of steps of a random plan")
 	nlong := flag.Int("long", 14, "number of very long lists")
 	longLen := flag.Int("longlen", 300, "their maximal length")
+	widths := flag.String("widths", "256", "list lengths w-1, w, w+1 for these w (run-length encoded traces)")
 	rounds := flag.Int("rounds", 60, "rounds of 2..6 calls released together on one fresh database")
 	flag.BoolVar(&dbErrOn, "dberr", false, "also pass handles that already carry an error "+
 		"(the unchanged tree leaves the transaction open: known finding, see checks/c18.py)")
@@ -1217,12 +1566,26 @@ func main() {
 	ne := enumerate(w, rng, *enumLen, false)
 	ne += enumerate(w, rng, *enumFull, true)
 	ns := enumStates(w, rng)
+	ns += enumErrKinds(w, rng)
 	nl := enumLong(w, rng, *nlong, *longLen)
+	if *widths != "" {
+		var ws []int
+		for _, x := range strings.Split(*widths, ",") {
+			var v int
+			fmt.Sscan(x, &v)
+			ws = append(ws, v)
+		}
+		nl += enumWidths(w, rng, ws)
+	}
 	for i := 0; i < *nrand; i++ {
 		runOne(w, rng, "rand", randPlan(rng, *maxLen))
 	}
 	for i := 0; i < *rounds; i++ {
-		runRound(w, rng, 2+rng.Intn(5), 4)
+		if i%4 == 3 {
+			runQueued(w, rng, 3)
+		} else {
+			runRound(w, rng, 2+rng.Intn(5), 4)
+		}
 	}
 	w.Close()
 	fmt.Printf("c18: %d plans, %d enumerated, %d handle states / refusal kinds, %d long, %d random, %d rounds, %d events\n",
